@@ -297,6 +297,41 @@ fn fresh(counter: &mut u64, n: usize) -> Vec<u64> {
         .collect()
 }
 
+/// the read-only getters: every row and column index in `0..=len+1` (all = true) or a random one
+fn getter_lines(g: &mut Gen, s: Size, all: bool) {
+    let via = |k: usize| if k % 2 == 0 { "iter" } else { "reference_iter" };
+    if all {
+        for r in 0..=s.r + 1 {
+            g.op(format!("row_iter {} via={}", r, via(r)));
+            g.count(if r < s.r { "getter.row_iter.valid" } else { "getter.row_iter.invalid" });
+        }
+        for c in 0..=s.c + 1 {
+            g.op(format!("column_iter {} via={}", c, via(c + 1)));
+            g.count(if c < s.c { "getter.column_iter.valid" } else { "getter.column_iter.invalid" });
+        }
+        g.op("diagonal_iter via=iter".to_string());
+        g.op("diagonal_iter via=reference_iter".to_string());
+        g.count_n("getter.diagonal_iter", 2);
+    } else {
+        match g.rng.below(3) {
+            0 => {
+                let r = pick_index(g, s.r);
+                g.op(format!("row_iter {} via={}", r, via(r)));
+                g.count(if r < s.r { "getter.row_iter.valid" } else { "getter.row_iter.invalid" });
+            }
+            1 => {
+                let c = pick_index(g, s.c);
+                g.op(format!("column_iter {} via={}", c, via(c)));
+                g.count(if c < s.c { "getter.column_iter.valid" } else { "getter.column_iter.invalid" });
+            }
+            _ => {
+                g.op(format!("diagonal_iter via={}", via(s.r + s.c)));
+                g.count("getter.diagonal_iter");
+            }
+        }
+    }
+}
+
 /// The slice shapes of the exhaustive alphabet, instantiated at dimension length `n`.
 fn slice_shapes(n: usize) -> Vec<Sl> {
     vec![
@@ -436,6 +471,7 @@ fn gen_exhaustive(g: &mut Gen) {
             g.count("exhaustive.case.len1");
             g.op("scalar".to_string());
             g.op("try_into_scalar".to_string());
+            getter_lines(g, s0, true);
             let a1 = alphabet(s0, &mut counter);
             for op in &a1 {
                 count_op(g, op, s0, "exh");
@@ -635,6 +671,9 @@ fn gen_random(g: &mut Gen) {
             if !op.valid(s) {
                 seen_invalid = true;
             }
+            if g.rng.chance(1, 10) {
+                getter_lines(g, s, false);
+            }
             if g.rng.chance(1, 20) {
                 let q = if g.rng.chance(1, 2) { "scalar" } else { "try_into_scalar" };
                 g.op(q.to_string());
@@ -820,6 +859,7 @@ fn gen_large(g: &mut Gen) {
                 g.op(op.line());
                 s = op.after(s);
             }
+            getter_lines(g, s, true);
             // grow back and go on at random without the shrinking bias of `random_op`
             for _ in 0..12 {
                 let op = match g.rng.below(8) {
@@ -983,6 +1023,7 @@ fn gen_degenerate(g: &mut Gen) {
                 g.op(op.line());
                 s = op.after(s);
             }
+            getter_lines(g, s, true);
         }
     }
 }
@@ -1534,6 +1575,26 @@ impl Runner {
         if toks[0] == "scalar" && toks.len() == 1 {
             return match catch(|| m.scalar()) {
                 Ok(v) => format!("val={}", v),
+                Err(k) => format!("panic ## kind={}", k.as_str()),
+            };
+        }
+        if toks[0] == "row_iter" || toks[0] == "column_iter" || toks[0] == "diagonal_iter" {
+            let reference = opt_arg("via", toks) == Some("reference_iter");
+            let which = toks[0];
+            let arg: usize = if which == "diagonal_iter" { 0 } else { toks[1].parse().expect("usize") };
+            let m: &Matrix<u64> = m;
+            let got = catch(|| -> Vec<u64> {
+                match (which, reference) {
+                    ("row_iter", false) => m.row_iter(arg).collect(),
+                    ("row_iter", true) => m.row_reference_iter(arg).cloned().collect(),
+                    ("column_iter", false) => m.column_iter(arg).collect(),
+                    ("column_iter", true) => m.column_reference_iter(arg).cloned().collect(),
+                    (_, false) => m.diagonal_iter().collect(),
+                    (_, true) => m.diagonal_reference_iter().cloned().collect(),
+                }
+            });
+            return match got {
+                Ok(v) => format!("vals={}", show_vals(&v)),
                 Err(k) => format!("panic ## kind={}", k.as_str()),
             };
         }
